@@ -1,3 +1,194 @@
 package main
 
-func cmdSelftest(args []string) int { return 0 }
+// `symgo selftest`: self-validation of the encoder (DESIGN.md 2.6).
+
+import (
+	"fmt"
+	"math/rand"
+	"os"
+	"sort"
+	"strings"
+	"unicode"
+)
+
+func evalSegs(segs []caseSeg, r rune, aLo, aHi rune, aDelta rune) rune {
+	if r < 0x80 {
+		if r >= aLo && r <= aHi {
+			return r + aDelta
+		}
+		return r
+	}
+	for _, s := range segs {
+		if r >= s.lo && r <= s.hi {
+			if s.step == 2 && (r-s.lo)%2 != 0 {
+				continue
+			}
+			return r + s.delta
+		}
+	}
+	return r
+}
+
+func cmdSelftest(args []string) int {
+	fails := 0
+	fail := func(f string, a ...interface{}) {
+		fails++
+		fmt.Printf("SELFTEST FAIL: "+f+"\n", a...)
+	}
+	// 1. case-mapping tables vs package unicode on every code point
+	n := 0
+	for r := rune(0); r <= 0x10FFFF; r++ {
+		if r >= 0xD800 && r <= 0xDFFF {
+			continue
+		}
+		if evalSegs(upperSegs, r, 'a', 'z', -32) != unicode.ToUpper(r) {
+			fail("ToUpper table differs at U+%04X", r)
+		}
+		if evalSegs(lowerSegs, r, 'A', 'Z', 32) != unicode.ToLower(r) {
+			fail("ToLower table differs at U+%04X", r)
+		}
+		n++
+	}
+	fmt.Printf("selftest: case tables agree with package unicode on %d code points (%d/%d segments)\n", n, len(upperSegs), len(lowerSegs))
+	// 2. preimages
+	for k, pre := range upperPre {
+		for _, p := range pre {
+			if unicode.ToUpper(p) != k {
+				fail("upper preimage")
+			}
+		}
+	}
+	// 3. folding and the two integer encodings against the solver
+	solver := NewSolver(envOr("VERIF_SOLVER", "z3"), 20000, solverPrelude())
+	defer solver.Close()
+	rng := rand.New(rand.NewSource(int64(seedFromEnv())))
+	ctx := newCtx()
+	x, y := ctx.Var("sx", SBV64), ctx.Var("sy", SBV64)
+	consts := []int64{0, 1, -1, 2, 7, 24, 60, 1000, 1000000, 1 << 31, -(1 << 40), 1<<63 - 1, -1 << 63}
+	var gen func(d int) *Term
+	gen = func(d int) *Term {
+		if d == 0 || rng.Intn(4) == 0 {
+			switch rng.Intn(3) {
+			case 0:
+				return x
+			case 1:
+				return y
+			}
+			return mkInt(64, consts[rng.Intn(len(consts))])
+		}
+		a, b := gen(d-1), gen(d-1)
+		switch rng.Intn(6) {
+		case 0:
+			return ctx.Add(a, b)
+		case 1:
+			return ctx.Sub(a, b)
+		case 2:
+			return ctx.Mul(a, mkInt(64, consts[3+rng.Intn(6)]))
+		case 3:
+			return ctx.SDiv(a, mkInt(64, consts[3+rng.Intn(6)]))
+		case 4:
+			return ctx.Neg(a)
+		}
+		return ctx.Ite(ctx.Slt(a, b), a, b)
+	}
+	agree := 0
+	for i := 0; i < 150; i++ {
+		t := gen(3)
+		cx, cy := consts[rng.Intn(len(consts))]+int64(rng.Intn(5)), consts[rng.Intn(len(consts))]-int64(rng.Intn(5))
+		asg := map[string]uint64{"sx": uint64(cx), "sy": uint64(cy)}
+		v, ok := evalTerm(t, asg, map[*Term]uint64{})
+		if !ok {
+			continue
+		}
+		pc := []*Term{ctx.Eq(x, mkInt(64, cx)), ctx.Eq(y, mkInt(64, cy))}
+		q := ctx.Not(ctx.Eq(t, mkBV(64, v)))
+		if q.IsConst() {
+			if q.Bool() {
+				fail("constant folding disagrees with evaluation")
+			}
+			continue
+		}
+		rb, _ := solver.checkBV(pc, q, false, nil)
+		solver.Reset()
+		ri, _ := solver.CheckInt(pc, q, false)
+		if rb != "unsat" {
+			fail("BV encoding: evaluator and solver disagree on %s (x=%d y=%d): %s", t.SMT(), cx, cy, rb)
+		}
+		if ri != "unsat" {
+			fail("Int encoding: evaluator and solver disagree on %s (x=%d y=%d): %s", t.SMT(), cx, cy, ri)
+		}
+		agree++
+	}
+	fmt.Printf("selftest: %d random integer terms: evaluator, BV encoding and Int-with-wrap encoding agree\n", agree)
+	// 4. observation harnesses: engine (concrete) vs native
+	if len(args) > 0 && args[0] == "quick" {
+		if fails > 0 {
+			return 2
+		}
+		return 0
+	}
+	sc, err := newScratch()
+	if err != nil {
+		fmt.Println(err)
+		return 2
+	}
+	defer sc.Close()
+	rel := "zzverif/self"
+	p, pkgs, err := loadProgram([]string{rel}, sc)
+	if err != nil {
+		fmt.Println("selftest load:", err)
+		return 2
+	}
+	hps, _ := scanHarnessPkgs()
+	funcs := append([]string{}, hps[rel].funcs...)
+	sort.Strings(funcs)
+	var cases []replayCase
+	engineObs := map[string]string{}
+	for _, f := range funcs {
+		fn := pkgs[rel].Func(f)
+		res := runPath(p, pkgs[rel], fn, map[string]int{}, nil, solver, defaultOpts(), func(string) bool { return false })
+		engineObs[f] = res.Outcome + " ## " + strings.Join(res.Leads, " | ")
+		if res.Outcome != "done" {
+			fail("engine outcome of %s: %s %s", f, res.Outcome, firstLineOf(res.Detail))
+		}
+		cases = append(cases, replayCase{Harness: f, Model: map[string]uint64{}, Choices: map[string]int64{}, Params: map[string]int{}})
+	}
+	outs, err := nativeReplay(rel, cases, false)
+	if err != nil {
+		fmt.Println("selftest native:", err)
+		return 2
+	}
+	for i, f := range funcs {
+		if outs[i] != engineObs[f] {
+			fail("observations of %s differ between the engine and the native run", f)
+			a, b := strings.Split(engineObs[f], " | "), strings.Split(outs[i], " | ")
+			for k := 0; k < len(a) || k < len(b); k++ {
+				var x, y string
+				if k < len(a) {
+					x = a[k]
+				}
+				if k < len(b) {
+					y = b[k]
+				}
+				if x != y {
+					fmt.Printf("   engine: %s\n   native: %s\n", x, y)
+					break
+				}
+			}
+		} else {
+			fmt.Printf("selftest: %s: %d observations identical in the engine and natively\n", f, strings.Count(outs[i], " | ")+1)
+		}
+	}
+	if fails > 0 {
+		fmt.Printf("selftest: %d failures\n", fails)
+		return 2
+	}
+	fmt.Println("selftest: ok")
+	return 0
+}
+
+func seedFromEnv() int {
+	s := 1
+	fmt.Sscanf(os.Getenv("VERIF_SEED"), "%d", &s)
+	return s
+}
